@@ -1247,6 +1247,181 @@ Section BatchProofs.
     destruct (prep (scs st s) ds). eauto.
   Qed.
 
+  (* ---- termination: a natural-number measure that every step decreases ------------------------------ *)
+  Fixpoint sumf (h : nat -> nat) (n : nat) : nat := match n with O => 0 | S m => sumf h m + h m end.
+
+  Lemma sumf_ext h g n : (forall k, k < n -> h k = g k) -> sumf h n = sumf g n.
+  Proof.
+    induction n as [|m IH]; intro H; cbn; [reflexivity|]. rewrite IH by (intros; apply H; lia). rewrite (H m) by lia. reflexivity.
+  Qed.
+
+  Lemma sumf_upd {A} (w : A -> nat) (f : nat -> A) n b x :
+    b < n -> sumf (fun k => w (upd f b x k)) n + w (f b) = sumf (fun k => w (f k)) n + w x.
+  Proof.
+    induction n as [|m IH]; intro Hb; [lia|]. cbn [sumf].
+    destruct (Nat.eq_dec b m) as [->|Hne].
+    - rewrite upd_same. rewrite (sumf_ext (fun k => w (upd f m x k)) (fun k => w (f k)) m); [lia|].
+      intros k Hk. rewrite upd_other by lia. reflexivity.
+    - rewrite (upd_other f b x m) by lia. assert (Hb' : b < m) by lia. specialize (IH Hb'). lia.
+  Qed.
+
+  Definition scene_weight (sd : N * list DET) : nat := length (snd sd) + 5.
+  Definition scenes_weight (bt : batch DET) : nat := list_sum (map scene_weight bt).
+  (* the batches from index b on: their dispatches, plus the monitor step and the loop exit of each *)
+  Definition rest_weight (b : nat) : nat := list_sum (map (fun bt => scenes_weight bt + 2) (skipn b batches)).
+  Definition drop_weight : nat := 2 * V + 3.
+
+  Definition main_rank (p : mpc DET) : nat :=
+    match p with
+    | MWait b => rest_weight b + drop_weight + 1
+    | MDisp b rest _ => scenes_weight rest + 1 + rest_weight (S b) + drop_weight + 1
+    | MDropSend v => 2 * (V - v) + 3
+    | MDropJoin v => 2 * (V - v) + 2
+    | MDone => 0
+    end.
+
+  Definition entry_weight (e : entryT) : nat :=
+    match ep e with
+    | Queued => jn (ej e) + 4
+    | Work i _ => (jn (ej e) - i) + 3
+    | Sent => 1
+    end.
+
+  Definition bmeasure (st : state) : nat :=
+    main_rank (pc st) + list_sum (map entry_weight (jobs st)) +
+    sumf (fun b => length (chans st b)) nb + sumf (fun v => if xdone st v then 0 else 1) V.
+
+  Lemma skipn_sum_lt {A} (g : list A -> nat) (bs : list (list A)) : forall b, b < length bs ->
+    list_sum (map g (skipn b bs)) = g (nth b bs []) + list_sum (map g (skipn (S b) bs)).
+  Proof.
+    induction bs as [|bt bs' IH]; intros b Hb; [cbn in Hb; lia|].
+    destruct b as [|b']; [reflexivity|]. cbn [skipn nth]. apply IH. cbn in Hb. lia.
+  Qed.
+
+  Lemma rest_weight_lt b : b < nb -> rest_weight b = scenes_weight (nth b batches []) + 2 + rest_weight (S b).
+  Proof.
+    intro Hb. unfold rest_weight.
+    pose proof (skipn_sum_lt (fun bt : batch DET => scenes_weight bt + 2) batches b Hb) as E. cbn beta in E.
+    unfold batch in *. lia.
+  Qed.
+
+  Lemma rest_weight_ge b : nb <= b -> rest_weight b = 0.
+  Proof. intro H. unfold rest_weight. rewrite skipn_all2 by exact H. reflexivity. Qed.
+
+  Lemma list_sum_mid (l1 l2 : list entryT) e :
+    list_sum (map entry_weight (l1 ++ e :: l2)) = list_sum (map entry_weight l1) + entry_weight e + list_sum (map entry_weight l2).
+  Proof. rewrite map_app, list_sum_app. change (map entry_weight (e :: l2)) with (entry_weight e :: map entry_weight l2). change (list_sum (entry_weight e :: map entry_weight l2)) with (entry_weight e + list_sum (map entry_weight l2)). lia. Qed.
+
+  Lemma chan_nonempty_lt st b r rest : Inv st -> chans st b = r :: rest -> b < nb.
+  Proof.
+    intros I H. destruct (Nat.lt_ge_cases b nb) as [Hlt|Hge]; [exact Hlt|]. exfalso.
+    pose proof (inv_acc _ I b) as P. rewrite nth_overflow in P by exact Hge. cbn in P.
+    apply Permutation_length in P. rewrite !app_length, H in P. cbn in P. lia.
+  Qed.
+
+  Lemma measure_decreases_inv st st' : Inv st -> bstep st st' -> bmeasure st' < bmeasure st.
+  Proof.
+    intros I S. destruct S; unfold bmeasure; cbn [pc jobs chans xdone].
+    - (* shutdown0 *) rewrite H. cbn [main_rank]. rewrite (rest_weight_ge b H0). unfold drop_weight. lia.
+    - (* wait *) rewrite H. cbn [main_rank]. rewrite (rest_weight_lt b H0). lia.
+    - (* disp_end *) rewrite H. cbn [main_rank]. unfold after_batch. unfold scenes_weight. cbn [map list_sum].
+      destruct (Nat.ltb (S b) nb) eqn:E; cbn [main_rank].
+      + lia.
+      + apply Nat.ltb_ge in E. rewrite (rest_weight_ge (S b) E). unfold drop_weight. lia.
+    - (* disp *) rewrite H. cbn [main_rank]. unfold scenes_weight. cbn [map list_sum]. unfold scene_weight at 2. cbn [snd].
+      rewrite map_app, list_sum_app.
+      change (list_sum (length ds + 5 :: map scene_weight rest)) with (length ds + 5 + list_sum (map scene_weight rest)).
+      change (list_sum (map entry_weight [mkE (i mod V) (mkJob b s (length ds) d) Queued])) with (length ds + 4 + 0).
+      lia.
+    - (* dropsend *) rewrite H. cbn [main_rank]. lia.
+    - (* dropend *) rewrite H. cbn [main_rank]. lia.
+    - (* join *) rewrite H. cbn [main_rank]. destruct (inv_joinpc _ I _ H) as (Hv & _). lia.
+    - (* exit *)
+      pose proof (sumf_upd (fun d : bool => if d then 0 else 1) (xdone st) V v true H) as E.
+      cbn beta in E. rewrite H2 in E. lia.
+    - (* begin *)
+      destruct (first_split _ _ _ H0) as (l1 & l2 & Hl & _ & _ & Hu & _). rewrite Hu, Hl, !list_sum_mid.
+      assert (W1 : entry_weight e = jn (ej e) + 4) by (unfold entry_weight; now rewrite H1).
+      assert (W2 : entry_weight (mkE v (ej e) (Work 0 [])) = jn (ej e) - 0 + 3) by reflexivity.
+      rewrite W1, W2. lia.
+    - (* write *)
+      destruct (first_split _ _ _ H0) as (l1 & l2 & Hl & _ & _ & Hu & _). rewrite Hu, Hl, !list_sum_mid.
+      assert (W1 : entry_weight e = jn (ej e) - i + 3) by (unfold entry_weight; now rewrite H1).
+      assert (W2 : entry_weight (mkE v (ej e) (Work (S i) (acc ++ [(r, if created then Some (counter st + 1)%N else None)]))) = jn (ej e) - S i + 3) by reflexivity.
+      rewrite W1, W2. lia.
+    - (* send *)
+      destruct (first_split _ _ _ H0) as (l1 & l2 & Hl & _ & _ & Hu & _). rewrite Hu, Hl, !list_sum_mid.
+      assert (W1 : entry_weight e = jn (ej e) - i + 3) by (unfold entry_weight; now rewrite H1).
+      assert (W2 : entry_weight (mkE v (ej e) (@Sent REC)) = 1) by reflexivity.
+      rewrite W1, W2.
+      assert (Hin : In e (jobs st)) by (rewrite Hl; apply in_or_app; right; now left).
+      pose proof (inv_jb _ I e Hin) as Hb. unfold ejb in Hb.
+      pose proof (sumf_upd (@length (result REC)) (chans st) nb (jb (ej e)) [(js (ej e), acc)] Hb) as E.
+      rewrite H3 in E. cbn [length] in E. lia.
+    - (* dec *)
+      destruct (first_split _ _ _ H0) as (l1 & l2 & Hl & _ & _ & _ & Hr). rewrite Hr, Hl, list_sum_mid, map_app, list_sum_app.
+      assert (W1 : entry_weight e = 1) by (unfold entry_weight; now rewrite H1). rewrite W1. lia.
+    - (* consume *)
+      pose proof (chan_nonempty_lt _ _ _ _ I H) as Hb.
+      pose proof (sumf_upd (@length (result REC)) (chans st) nb b rest Hb) as E. rewrite H in E. cbn [length] in E. lia.
+  Qed.
+
+  Lemma run_length_bounded sigma : forall st st', Inv st -> RUN st sigma = Some st' -> length sigma + bmeasure st' <= bmeasure st.
+  Proof.
+    induction sigma as [|l sigma IH]; intros st st' I H; cbn in H.
+    - injection H as <-. cbn. lia.
+    - destruct (FIRE st l) as [st1|] eqn:E; [|discriminate].
+      pose proof (fire_step _ _ _ E) as S. pose proof (measure_decreases_inv _ _ I S) as D.
+      specialize (IH st1 st' (inv_step _ _ I S) H). cbn [length]. lia.
+  Qed.
+
+  Lemma batch_terminates_lemma sigma st :
+    RUN INIT sigma = Some st -> length sigma + bmeasure st <= bmeasure INIT.
+  Proof. apply run_length_bounded. apply inv_init. Qed.
+
+  Lemma measure_decreases_lemma sigma st l st' :
+    RUN INIT sigma = Some st -> FIRE st l = Some st' -> bmeasure st' < bmeasure st.
+  Proof. intros H E. apply measure_decreases_inv; [eapply reachable_inv; eauto|eapply fire_step; eauto]. Qed.
+
+  Lemma run_app s1 : forall s2 st st1 st2, RUN st s1 = Some st1 -> RUN st1 s2 = Some st2 -> RUN st (s1 ++ s2) = Some st2.
+  Proof.
+    induction s1 as [|l s1 IH]; intros s2 st st1 st2 H1 H2; cbn in *.
+    - now injection H1 as ->.
+    - destruct (FIRE st l) as [sx|]; [|discriminate]. eapply IH; eauto.
+  Qed.
+
+  (* under the proviso every reachable state can be driven to a final state, in at most [bmeasure] steps *)
+  Lemma completion_from n : forall st, lazy = false -> Inv st -> bmeasure st <= n ->
+    exists sigma st', RUN st sigma = Some st' /\ FINAL st' = true /\ length sigma <= n.
+  Proof.
+    induction n as [|m IH]; intros st Hl I Hm.
+    - destruct (FINAL st) eqn:F; [exists [], st; cbn; auto|].
+      destruct (no_deadlock_inv st Hl I F) as (l & st1 & E).
+      pose proof (measure_decreases_inv _ _ I (fire_step _ _ _ E)). lia.
+    - destruct (FINAL st) eqn:F; [exists [], st; cbn; split; [reflexivity|split; [exact F|lia]]|].
+      destruct (no_deadlock_inv st Hl I F) as (l & st1 & E).
+      pose proof (fire_step _ _ _ E) as S. pose proof (measure_decreases_inv _ _ I S) as D.
+      destruct (IH st1 Hl (inv_step _ _ I S)) as (sigma & st' & R & Fn & Ln); [lia|].
+      exists (l :: sigma), st'. cbn. rewrite E. repeat split; auto. lia.
+  Qed.
+
+  Lemma every_run_completes_lemma sigma st :
+    lazy = false -> RUN INIT sigma = Some st ->
+    exists sigma' st', RUN INIT (sigma ++ sigma') = Some st' /\ FINAL st' = true /\ length (sigma ++ sigma') <= bmeasure INIT.
+  Proof.
+    intros Hl H. pose proof (reachable_inv _ _ H) as I.
+    destruct (completion_from (bmeasure st) st Hl I (le_n _)) as (s2 & st' & R & F & L).
+    exists s2, st'. split; [eapply run_app; eauto|]. split; [exact F|].
+    rewrite app_length. pose proof (batch_terminates_lemma _ _ H). lia.
+  Qed.
+
+  Lemma maximal_run_is_final_lemma sigma st :
+    lazy = false -> RUN INIT sigma = Some st -> (forall l, FIRE st l = None) -> FINAL st = true.
+  Proof.
+    intros Hl H Hmax. destruct (FINAL st) eqn:F; [reflexivity|].
+    destruct (no_deadlock_inv st Hl (reachable_inv _ _ H) F) as (l & st1 & E). rewrite Hmax in E. discriminate.
+  Qed.
+
   (* ---- scene locality of the steps ---------------------------------------------------------------- *)
   Definition touched (st : state) (l : blabel) : option N :=
     match l with
